@@ -75,6 +75,17 @@ def _sim():
     return s
 
 
+def _ctor_point(cls):
+    """The constructors of Event, Condition, Semaphore, Barrier and Queue are Python code in
+    CPython (several lines, further allocations inside): a thread can be pre-empted while it is
+    building one, before the new object is stored anywhere -- which is what makes
+    `defaultdict(Queue)[seat]` or a lazily created per-seat primitive a race.  So construction
+    inside a simulated thread is a yield point (Lock/RLock/SimpleQueue are C objects: atomic)."""
+    s = current_sim()
+    if s is not None and s.active and s.in_sim_thread():
+        s.yield_('new', cls)
+
+
 class _Timer:
     """One-shot timeout flag fired by a discrete event."""
     __slots__ = ('fired',)
@@ -93,6 +104,7 @@ class _Timer:
 
 class SimEvent:
     def __init__(self):
+        _ctor_point('Event')
         s = current_sim()
         self.name = s.new_obj_name('Event') if s else 'Event?'
         self._flag = False
@@ -247,6 +259,7 @@ class SimRLock:
 
 class SimCondition:
     def __init__(self, lock=None):
+        _ctor_point('Condition')
         s = current_sim()
         self.name = s.new_obj_name('Condition') if s else 'Condition?'
         self._lock = lock if lock is not None else SimRLock()
@@ -318,6 +331,7 @@ class SimSemaphore:
     def __init__(self, value=1):
         if value < 0:
             raise ValueError('semaphore initial value must be >= 0')
+        _ctor_point('Semaphore')
         s = current_sim()
         self.name = s.new_obj_name('Semaphore') if s else 'Semaphore?'
         self._value = value
@@ -363,6 +377,7 @@ class SimBoundedSemaphore(SimSemaphore):
 
 class SimBarrier:
     def __init__(self, parties, action=None, timeout=None):
+        _ctor_point('Barrier')
         s = current_sim()
         self.name = s.new_obj_name('Barrier') if s else 'Barrier?'
         self._parties = parties
@@ -441,6 +456,7 @@ class SimQueue:
     """queue.Queue (FIFO) with maxsize, task_done/join."""
 
     def __init__(self, maxsize=0):
+        _ctor_point('Queue')
         s = current_sim()
         self.name = s.new_obj_name('Queue') if s else 'Queue?'
         self.maxsize = maxsize
